@@ -50,6 +50,9 @@ CONFIGS = {
     "tsan_noasm": _cfg("gcc", ["-O1", "-g"], STD, ["-fsanitize=thread"], ["-lpthread"], wrap=False),
     # plain build of the shim for valgrind (helgrind / memcheck): shipped flags
     "vg": _cfg("gcc", ["-O2", "-g"], STD + ["-DUSE_ASM_X86_64=1", "-DVALGRIND"], [], ["-lpthread"], wrap=False),
+    # small-group configuration (EXHAUSTIVE_TEST_ORDER): standalone driver, tables recomputed at start
+    "sg13": _cfg("gcc", ["-O1", "-g"], ["-DEXHAUSTIVE_TEST_ORDER=13", "-DVERIFY"], SAN, src="sgdriver.c", precomp=False, wrap=False),
+    "sg199": _cfg("gcc", ["-O1", "-g"], ["-DEXHAUSTIVE_TEST_ORDER=199", "-DVERIFY"], SAN, src="sgdriver.c", precomp=False, wrap=False),
 }
 
 def tree_files(repo=None):
